@@ -16,7 +16,8 @@ Inductive berr :=
 | EInvalidPatternCapture  (* errInvalidPatternCapture *)
 | ETooComplex             (* errPatternTooComplex     *)
 | EInvalidCaptureIdx (n : Z)
-| EInvalidPct.            (* ErrInvalidPct "invalid use of '%'" *)
+| EInvalidPct             (* ErrInvalidPct "invalid use of '%'" *)
+| EMissingBracket.        (* errMissingBracketAfterF "missing '[' after '%f' in pattern" *)
 
 Inductive res (A : Type) :=
 | Ok (a : A) | Err (e : berr) | BPanic | BFuel.
@@ -52,6 +53,14 @@ Definition next (p : pb) : res (Z * pb) :=
        | None => BPanic
        end.
 
+(* the byte at pb.i without consuming it, for the test made after %f *)
+Definition peekF (p : pb) : res Z :=
+  if Nat.leb plen (b_i p) then Err EMissingBracket
+  else match nth_error ptn (b_i p) with
+       | Some b => Ok b
+       | None => BPanic
+       end.
+
 Definition back (p : pb) : pb := set_i p (Nat.pred (b_i p)).
 
 Definition emit (p : pb) (it : item) : pb :=
@@ -66,36 +75,35 @@ Definition getCharRange (c : Z) : res bset :=
     else Ok (bs_add bs_empty c)
   end.
 
-(* the Loop of getUnion; b is the byte last read (err == nil) *)
-Fixpoint unionLoop (fuel : nat) (neg : bool) (s : bset) (b : Z) (p : pb) : res (bset * pb) :=
+(* the Loop of getUnion; b is the byte last read (err == nil); [first] = this is
+   the first byte of the set, where a ']' stands for itself *)
+Fixpoint unionLoop (fuel : nat) (first : bool) (neg : bool) (s : bset) (b : Z) (p : pb) : res (bset * pb) :=
   match fuel with
   | O => BFuel
   | S f =>
-    if b =? 93 (* ] *) then Ok ((if neg then bs_compl s else s), p)
+    if (b =? 93 (* ] *)) && negb first then Ok ((if neg then bs_compl s else s), p)
     else if b =? 37 (* % *) then
       do '(b1, p) <- next p;
       do r <- getCharRange b1;
       do '(b2, p) <- next p;
-      unionLoop f neg (bs_merge s r) b2 p
+      unionLoop f false neg (bs_merge s r) b2 p
     else
       let c := b in
       do '(b1, p) <- next p;
       if b1 =? 45 (* - *) then
         do '(b2, p) <- next p;
-        if b2 =? 93 then unionLoop f neg (bs_add (bs_add s c) 45) b2 p
+        if b2 =? 93 then unionLoop f false neg (bs_add (bs_add s c) 45) b2 p
         else
           do '(b3, p) <- next p;
-          unionLoop f neg (bs_merge s (bs_range c b2)) b3 p
-      else unionLoop f neg (bs_add s c) b1 p
+          unionLoop f false neg (bs_merge s (bs_range c b2)) b3 p
+      else unionLoop f false neg (bs_add s c) b1 p
   end.
 
 Definition getUnion (p : pb) : res (bset * pb) :=
   do '(b, p) <- next p;
   do '(neg, b, p) <- (if b =? 94 (* ^ *) then do '(b', p') <- next p; Ok (true, b', p')
                       else Ok (false, b, p));
-  do '(s, b, p) <- (if b =? 93 then do '(b', p') <- next p; Ok (bs_add bs_empty 93, b', p')
-                    else Ok (bs_empty, b, p));
-  unionLoop (S (S plen)) neg s b p.
+  unionLoop (S (S plen)) true neg bs_empty b p.
 
 Definition getCharClass (p : pb) : res (bset * pb) :=
   do '(b, p) <- next p;
@@ -154,8 +162,12 @@ Definition getPatternItem (p : pb) : res pb :=
   else if b =? 37 (* % *) then
     do '(c, p) <- next p;
     if c =? 102 (* f *) then
-      do '(s, p) <- getCharClass p;
-      Ok (emit p (IFrontier s))
+      (* pb.i >= len(pb.ptn) || pb.ptn[pb.i] != '[' *)
+      do b0 <- peekF p;
+      if b0 =? 91 then
+        do '(s, p) <- getCharClass p;
+        Ok (emit p (IFrontier s))
+      else Err EMissingBracket
     else if c =? 98 (* b *) then
       do '(op, p) <- next p;
       do '(cl, p) <- next p;
